@@ -45,13 +45,14 @@ def generate(seed_: int, run: int, reactions: list[str]) -> dict:
         name = f"expr{k}.pkl"
         ops.append({"op": "dump_expr", "e": rng.randrange(10**6), "file": name})
         files.append(("expr", name, False))
+    twin_group = twin_member = None
     if rng.random() < 0.35:
-        # expressions that differ in one non-SymPy attribute only, so that a reader meets both
-        group = rng.choice(TWINS)
-        for k, member in enumerate(rng.sample(group, k=rng.choice([2, 3]))):
-            name = f"twin{k}.pkl"
-            ops.append({"op": "dump_expr", "e": member, "file": name})
-            files.append(("expr", name, False))
+        # one member of a family of expressions that differ in one non-SymPy attribute only; a
+        # reader may have built another member before it loads this one
+        twin_group = rng.choice(TWINS)
+        twin_member = rng.choice(twin_group)
+        ops.append({"op": "dump_expr", "e": twin_member, "file": "twin.pkl"})
+        files.append(("expr", "twin.pkl", False))
     # same-process loads, possibly after more work in the writer
     for kind, name, fp in files:
         if rng.random() < 0.5:
@@ -67,6 +68,8 @@ def generate(seed_: int, run: int, reactions: list[str]) -> dict:
             for _ in range(rng.randrange(0, 3)):
                 rops.append(c06.gen_config_op(rng, 9, tag))
             rops.append({"op": "formulate", "b": 9})
+        if twin_group and rng.random() < 0.7:
+            rops.append({"op": "build_expr", "e": rng.choice([m for m in twin_group if m != twin_member])})
         order = list(files)
         rng.shuffle(order)
         for kind, name, fp in order:
